@@ -12,7 +12,7 @@ git -C "$d/repo" init -q 2>/dev/null || true
 bin=$(echo "$id" | tr 'A-Z' 'a-z')
 cd "$d/harness"
 CARGO_TARGET_DIR=/verif/harness/target-seedtry cargo build --release --offline --bin "$bin" 2>&1 | grep -E "^(error|warning: unused)" | head -5
-case "$bin" in c02|c03) extra=c02lib;; c04) extra=c04npo;; *) extra=;; esac
+case "$bin" in c02|c03) extra=c02lib;; c04|c10|c09) extra=c04npo;; *) extra=;; esac
 if [ -n "$extra" ]; then CARGO_TARGET_DIR=/verif/harness/target-seedtry cargo build --release --offline --bin "$extra" 2>&1 | grep -E "^error" | head -5; fi
 if [ "$bin" = "c19" ]; then CARGO_TARGET_DIR=/verif/harness/target-seedtry cargo build --offline --bin c19 2>&1 | grep -E "^error" | head; fi
 set +e
